@@ -38,7 +38,10 @@ func (opt *Stop) Run(ctx app.Context) app.Error {
 	// Only fall back to yesterday if no explicit date has been given.
 	// Otherwise, it wouldn’t make sense to decrement the day.
 	shouldTryYesterday := opt.WasAutomatic()
-	yesterday := date.PlusDays(-1)
+	var yesterday klog.Date
+	if shouldTryYesterday {
+		yesterday = date.PlusDays(-1)
+	}
 	return util.Reconcile(ctx, util.ReconcileOpts{OutputFileArgs: opt.OutputFileArgs, WarnArgs: opt.WarnArgs},
 		[]reconciling.Creator{
 			reconciling.NewReconcilerAtRecord(date),
